@@ -46,7 +46,9 @@ def akai_payload():
             if v == 0:
                 files.append({"name": "PROG", "kind": "raw", "ftype": 0xF0, "chain": [sec], "data": prog})
                 sec += 1
-            vols.append({"name": f"VOL{v}", "dir": [d], "files": files})
+            # (VOL1 is flagged as an S1000 volume although its file is of the S3000 kind: what a listing says about a
+            # volume must not depend on whether the volume was looked into)
+            vols.append({"name": f"VOL{v}", "dir": [d], "files": files, **({"type": 1} if v == 1 else {})})
         parts.append({"vols": vols})
     return A.build_akai(A.model_from_spec({"parts": parts}))[0]
 
@@ -333,7 +335,7 @@ class Check(CheckBase):
     id = "C16"
     level = "model_checking"
     title = "Results depend only on the image bytes, not on what was looked at before"
-    rule = ("per image (AKAI: 2 partitions x 2 volumes, differing sample rates and a rate field of 0, L/R pair, fragmented chains, a program, a file filling its last "
+    rule = ("per image (AKAI: 2 partitions x 2 volumes, differing sample rates and a rate field of 0, an S1000-flagged volume holding an S3000 file, L/R pair, fragmented chains, a program, a file filling its last "
             "sector; Roland: 2 volumes + orphan performance, shared sample, reverse mode, start point > 0, two samples in one cluster chain reached through different performances, L/R pair; CDDA: duplicate and missing "
             "titles; AKAI and Roland again as read-only real files; a DAMAGED AKAI image (one volume cannot be realised: requests touching it fail, and must fail the same way under every history; its second partition holds a volume with two unparsable files (wiped header; declared size shorter than a header) and two files of kinds the tool does not decode (DRUM, EFFECT) among good ones); an INCOMPLETE AKAI image that ends inside a mono sample's audio and inside the right half of an L/R pair; a third AKAI image whose names are sanitised differently by role "
             "(ending in '-' / '.', '+'), where one raw name is a volume in one partition and a sample in another and where two "
